@@ -92,6 +92,11 @@ class WireMixin:
                                 f"bytes written by {label} on connection {cid} are not a concatenation of well-formed frames: {what}")
             for fr in frames:
                 d = refframer.fdict(fr)
+                if b"<class '" in fr or b"Error'>" in fr:
+                    # a Python object's repr instead of a value: the message had a field without a representable
+                    # value (e.g. the marker decode() leaves for a repeated tag) and had to be refused
+                    raise Violation("unrepresentable-transmitted", "C02/unrepresentable-message-transmitted",
+                                    f"{label} transmitted a frame carrying an object repr instead of a value: {fr[:160]!r}")
                 self.probe("wire_frames_type_" + str(d.get("35")))
                 if d.get("43") == "Y":
                     self.probe("wire_frames_retransmission")
